@@ -240,7 +240,7 @@ ITEM_CONTEXT_STATUSES = [st.RESUMING, st.PENDING, st.PAUSED, st.SUCCEEDED, st.FA
 # statuses in which a with-items task has, or may still get, items in flight and therefore must
 # digest item reports: not yet running (its first items were acknowledged as requested / scheduled /
 # delayed, or the very first report), running, being resumed; and the two "request in progress" ones
-STARTLIKE = [st.UNSET, st.REQUESTED, st.SCHEDULED, st.DELAYED, st.RESUMING]
+STARTLIKE = [st.UNSET, st.REQUESTED, st.SCHEDULED, st.DELAYED, st.RESUMING, st.RETRYING]
 RUNLIKE = STARTLIKE + [st.RUNNING]
 
 
